@@ -6,7 +6,7 @@ the sequence API of Array.c written in it, and audits the guarded blocks of the 
 Optimisation levels, header layout, method cache and collector are outside that model: here the
 correspondence IS the check — the same in-contract programs run on the library built in every
 configuration and the transcripts must be byte-identical."""
-import os, json, itertools, time
+import os, json, itertools, time, re
 from concurrent.futures import ThreadPoolExecutor
 import vlib
 
@@ -38,10 +38,10 @@ EXTRA_THOROUGH = [(0, 0, 0, 'O1'), (1, 1, 1, 'O1'), (0, 0, 0, 'Os'), (1, 1, 1, '
 
 # ---------------------------------------------------------------------------------------------- workload generator
 NREG = 10
-CTORS = ['ni', 'nf', 'ns', 'np', 'na', 'na', 'na', 'nl', 'nl', 'nt', 'nt', 'nr', 'nr', 'nu', 'nR', 'ng']
-MUT = ['pu', 'pu', 'ap', 'pa', 'pa', 'po', 'pt', 'se', 'se', 'rm', 'rm', 'so', 'rs', 'cl', 'cc', 'as', 'sw', 'cp']
+CTORS = ['ni', 'nf', 'ns', 'np', 'na', 'na', 'na', 'nl', 'nl', 'nt', 'nt', 'nr', 'nr', 'nu', 'nR', 'ng', 'nn', 'nn']
+MUT = ['pu', 'pu', 'ap', 'pa', 'pa', 'po', 'pt', 'se', 'se', 'rm', 'rm', 'so', 'rs', 'cl', 'cc', 'as', 'sw', 'cp', 'el', 'el', 'el', 'el']
 OBS = ['ge', 'ge', 'me', 'ln', 'ha', 'it', 'it', 'ib', 'sl', 'rv', 'zp', 'en', 'fi', 'ma', 'ty', 'sh', 'de', 'ci', 'cm', 'lk', 'iq']
-FREE = ['tc', 'tc', 'tn', 'rg', 'fm', 'fm', 'fm', 'sn', 'ca', 'gc', 'gc', 'D', 'D', 'dr', 'dr', 'dl', 'dl', 'th', 'mx', 'fl', 'hp', 'tf', 'tf', 'rw']
+FREE = ['tc', 'tc', 'tn', 'rg', 'fm', 'fm', 'fm', 'sn', 'ca', 'gc', 'gc', 'D', 'D', 'dr', 'dr', 'dl', 'dl', 'th', 'mx', 'fl', 'hp', 'tf', 'tf', 'rw', 'sk', 'sk']
 
 
 def rint(rng):
@@ -72,6 +72,11 @@ def gen_ctor(rng, kinds, r=None):
         a[0] = k + 3 * rng.randrange(0, 3); a[1] = t + 4 * rng.randrange(0, 3)
         a[2] = rng.choice([0, 1, 2, 4, 5, 6, 11, 12, 23, rng.randrange(0, 24)])
         kinds[r] = ('Table:' if op == 'nt' else 'Tree:') + ('Int', 'String', 'Pt')[k] + ':' + TCODE[t]
+    elif op == 'nn':
+        o = rng.randrange(4); v = rng.randrange(4)
+        a[0] = o + 4 * rng.randrange(0, 3); a[1] = v + 4 * rng.randrange(0, 3); a[2] = rng.choice([0, 1, 2, 3, 5])
+        vn = ('Array', 'List', 'Table', 'Tuple')[v]
+        kinds[r] = ('Array:' + vn, 'List:' + vn, 'Table:String:' + vn, 'Tree:Int:' + vn)[o]
     elif op == 'nR':
         src = [q for q, kd in kinds.items() if kd != 'Ref' and q != r]
         if not src:
@@ -90,7 +95,9 @@ def aim(rng, kinds, op, reg, focus):
     """prefer a register on which the operation does something"""
     if op in SCALAR_OK or rng.random() < .1:
         return reg
-    if op == 'de':
+    if op == 'el':
+        want = ('Array', 'List', 'Table', 'Tree', 'Tuple')
+    elif op == 'de':
         want = ('Ref',)
     elif op == 'lk':
         want = ('Int',)
@@ -162,6 +169,13 @@ def gen_wl(rng, nops):
                     same = [y0]
                 y = rng.choice(same) if same and rng.random() < .85 else rng.randrange(NREG)
                 toks.append('%s:%d,%d' % (op, reg, y))
+            elif op == 'el':
+                # prefer containers whose elements can reallocate (Strings, nested containers)
+                c = [q for q, kd in kinds.items() if kd.split(':')[0] in ('Array', 'List', 'Table', 'Tree')
+                     and kd.split(':')[-1] in ('String', 'Array', 'List', 'Table', 'Tuple')]
+                if c and rng.random() < .7:
+                    reg = rng.choice(c)
+                toks.append('el:%d,%d,%d,%d,%d' % (reg, rint(rng), rng.randrange(0, 90), rint(rng), rint(rng)))
             elif op == 'cp':
                 y = rng.randrange(NREG)
                 toks.append('cp:%d,%d' % (reg, y))
@@ -334,6 +348,102 @@ def enum_seq(L, inits):
     return out
 
 
+# ---------------------------------------------------------------------------------------------- coverage of guarded blocks
+# For every function of src/*.c that contains a `#if CELLO_<X>_CHECK` block (the list is re-extracted from the
+# source: Generated.cfg_guarded_blocks), the allocation classes of the object for which a call is IN CONTRACT
+# and the workload operations (operation/Type of the register, or el:/sk: label@class) that reach the function
+# on an object of that class.  A guarded function that is missing here, or a class no operation of the run
+# reached, shows up in the evidence (coverage.guarded_block_coverage) and in the notes.
+SEQ = ['Array', 'List']
+ANYC = ['Array', 'List', 'Table', 'Tree']
+
+
+def _k(ops, types):
+    return ['%s/%s' % (o, t) for o in ops for t in types]
+
+
+GUARD_COVER = {
+    'alloc_by': {'heap': ['ni', 'nf', 'ns', 'np', 'na', 'nl', 'nt', 'nr', 'nu', 'nn', 'rw']},
+    'dealloc_check': {'heap': _k(['dl'], ANYC + ['String', 'Int', 'Float', 'Pt']) + ['rw']},
+    'Array_New': {'heap': ['na', 'nn', 'rw']},
+    'Array_Assign': {'heap': ['as/Array', 'cp/Array'], 'data': ['el:Array.assign@data', 'nn']},
+    'Array_Reserve_More': {'heap': ['pu/Array', 'pa/Array', 'cc/Array', 'ap/Array'],
+                           'data': ['el:Array.push@data', 'el:Array.push_at@data', 'el:Array.concat@data']},
+    'Array_Pop_At': {'heap': ['pt/Array', 'rm/Array'], 'data': ['el:Array.pop_at@data']},
+    'Array_Push_At': {'heap': ['pa/Array'], 'data': ['el:Array.push_at@data']},
+    'Array_Pop': {'heap': ['po/Array'], 'data': ['el:Array.pop@data']},
+    'Array_Get': {'heap': ['ge/Array', 'el/Array'], 'data': ['el:Array.push@data', 'el:Array.set@data', 'el:Array.concat@data']},
+    'Array_Set': {'heap': ['se/Array'], 'data': ['el:Array.set@data']},
+    'Array_Resize': {'heap': ['rs/Array', 'cl/Array'], 'data': ['el:Array.resize@data']},
+    'GC_Rehash': {'heap': ['gc', 'na', 'th']},
+    'List_Alloc': {'heap': ['nl', 'pu/List', 'pa/List'], 'data': ['el:List.push@data', 'el:List.push_at@data', 'el:List.concat@data']},
+    'List_At': {'heap': ['ge/List', 'se/List', 'pt/List', 'pa/List', 'el/List'],
+                'data': ['el:List.set@data', 'el:List.pop_at@data', 'el:List.push_at@data']},
+    'List_Pop': {'heap': ['po/List'], 'data': ['el:List.pop@data']},
+    'String_New': {'heap': ['ns', 'fm', 'sn']},
+    'String_Del': {'heap': ['dl/String', 'gc'], 'data': _k(['po', 'pt', 'cl', 'rm'], ANYC)},
+    'String_Assign': {'heap': ['as/String', 'sk:string@stack'],
+                      'data': ['el:String.assign@data', 'el:String.assign@data.data'] + _k(['se', 'pu'], ANYC)},
+    'String_Clear': {'heap': ['xl/String'], 'data': ['el:String.look@data', 'el:String.look@data.data']},
+    'String_Concat': {'heap': ['ap/String', 'cc/String', 'pu/String', 'sk:string@stack'],
+                      'data': ['el:String.concat@data', 'el:String.concat@data.data']},
+    'String_Resize': {'heap': ['rs/String', 'cl/String', 'sn', 'fl'], 'data': ['el:String.resize@data', 'el:String.resize@data.data']},
+    'String_Format_To': {'heap': ['fm', 'sn', 'D'], 'data': ['el:String.format@data', 'el:String.format@data.data']},
+    'Table_New': {'heap': ['nt', 'nn', 'th']},
+    'Table_Assign': {'heap': ['as/Table', 'cp/Table'], 'data': ['nn', 'cp/Array', 'cp/List']},
+    'Table_Rehash': {'heap': ['se/Table', 'pu/Table', 'rs/Table', 'rm/Table'], 'data': ['el:Table.set@data', 'el:Table.rem@data', 'el:Table.resize@data']},
+    'Table_Resize': {'heap': ['rs/Table', 'cl/Table'], 'data': ['el:Table.resize@data']},
+    'Tree_Alloc': {'heap': ['nr', 'se/Tree', 'pu/Tree']},
+    'Tuple_New': {'heap': ['nu', 'nn'], 'stack': ['sk:tuple@stack', 'fm', 'ca']},
+    'Tuple_Del': {'heap': ['gc'], 'data': _k(['po', 'pt', 'cl', 'rm'], ANYC)},
+    'Tuple_Assign': {'heap': ['th', 'zp/Array', 'zp/List'], 'data': ['el:Tuple.assign@data', 'nn']},
+    'Tuple_Get': {'heap': ['ge/Tuple', 'el/Tuple'], 'data': ['el:Tuple.set@data', 'el:Tuple.push@data'], 'stack': ['sk:tuple@stack', 'fm', 'ca']},
+    'Tuple_Set': {'heap': ['se/Tuple'], 'data': ['el:Tuple.set@data'], 'stack': ['sk:tuple@stack']},
+    'Tuple_Push': {'heap': ['pu/Tuple', 'nu'], 'data': ['el:Tuple.push@data']},
+    'Tuple_Pop': {'heap': ['po/Tuple'], 'data': ['el:Tuple.pop@data']},
+    'Tuple_Push_At': {'heap': ['pa/Tuple'], 'data': ['el:Tuple.push_at@data']},
+    'Tuple_Pop_At': {'heap': ['pt/Tuple', 'rm/Tuple'], 'data': ['el:Tuple.pop_at@data']},
+    'Tuple_Concat': {'heap': ['cc/Tuple'], 'data': ['el:Tuple.concat@data']},
+    'Tuple_Resize': {'heap': ['rs/Tuple'], 'data': ['el:Tuple.resize@data']},
+    'Type_Alloc': {}, 'Type_New': {},       # run-time Types keep pointers into their creator's frame: not constructed by the workload
+    'Type_Scan': {'heap': ['it/Array', 'ge/Table'], 'data': ['el:String.concat@data', 'el:Array.push@data'],
+                  'stack': ['sk:tuple@stack', 'sk:string@stack', 'sk:num@stack', 'sk:ref@stack'], 'static': ['sk:type@static', 'sk:exc@static', 'hp']},
+    'Type_Method_At_Offset': {'heap': ['it/Array', 'ge/Table'], 'data': ['el:String.concat@data', 'el:Array.push@data'],
+                              'stack': ['sk:tuple@stack', 'sk:string@stack', 'sk:num@stack', 'sk:ref@stack'], 'static': ['sk:type@static', 'sk:exc@static', 'hp']},
+    'Type_Of': {'heap': ['ty/Array', 'ty/Table', 'ty/String'], 'data': ['el:String.concat@data', 'el:Int.assign@data'],
+                'stack': ['sk:tuple@stack', 'sk:string@stack', 'sk:num@stack'], 'static': ['sk:type@static', 'sk:exc@static']},
+}
+NOTE_MEMORY = 'MEMORY tests fire only when malloc fails: never in contract; the function itself is reached by the operations listed'
+
+
+def guarded_block_coverage(covered):
+    """rows of Generated.cfg_guarded_blocks (class test) x allocation class -> executed operations of this run"""
+    src = open(os.path.join(vlib.COQ, 'Generated.v')).read()
+    m = re.search(r'Definition cfg_guarded_blocks.*?\]%string\.', src, re.S)
+    rows = re.findall(r'\("([^"]*)", "([^"]*)", "([^"]*)", "([^"]*)"\)', m.group(0)) if m else []
+    out, missing, unexercised = {}, [], []
+    for f, fn, sw, cl in rows:
+        if cl != 'test' or fn in out:
+            continue
+        sws = sorted(set(s_ for f_, fn_, s_, c_ in rows if fn_ == fn and c_ == 'test'))
+        if fn not in GUARD_COVER:
+            out[fn] = {'file': f, 'switches': sws, 'coverage': 'NO WORKLOAD COVERAGE DECLARED for this guarded function'}
+            missing.append(fn)
+            continue
+        ent = {'file': f, 'switches': sws, 'classes_in_contract': {}}
+        for c, keys in GUARD_COVER[fn].items():
+            hit = {k: covered[k] for k in keys if covered.get(k)}
+            ent['classes_in_contract'][c] = hit if hit else 'NOT EXERCISED IN THIS RUN (declared: %s)' % ' '.join(keys)
+            if not hit:
+                unexercised.append('%s@%s' % (fn, c))
+        if not GUARD_COVER[fn]:
+            ent['classes_in_contract'] = 'not reachable by an in-contract workload (see props/C18.py)'
+        if sws == ['MEMORY'] or 'MEMORY' in sws:
+            ent['note'] = NOTE_MEMORY
+        out[fn] = ent
+    return out, missing, unexercised
+
+
 # ---------------------------------------------------------------------------------------------- comparison
 def unpack(impl):
     out = {}
@@ -362,11 +472,18 @@ def wl_oracle(case, impl, spec):
     return None
 
 
+def op_value(o):
+    """'pu=Array~ok' -> ('pu', 'Array', 'ok');  'fm=3:abc' -> ('fm', None, '3:abc')"""
+    k, v = o.split('=', 1)
+    m = re.match(r'([A-Za-z]+)~(.*)$', v, re.S)
+    return (k, m.group(1), m.group(2)) if m else (k, None, v)
+
+
 def wl_nontrivial(case, impl):
     tr = unpack(impl)
     t = next(iter(tr.values()), '')
     ops = t.split(' | ')
-    eff = [o for o in ops if '=' in o and o.split('=', 1)[1] not in ('-', '?', 'absent', '') and '!EXC' not in o]
+    eff = [o for o in ops if '=' in o and op_value(o)[2] not in ('-', '?', 'absent', '') and not op_value(o)[2].startswith('-:') and '!EXC' not in o]
     kinds = set(o.split('=', 1)[0] for o in eff)
     return len(eff) >= 8 and len(kinds) >= 5 and '!EXC' not in t and 'CRASH' not in t and 'TIMEOUT' not in t
 
@@ -403,6 +520,12 @@ def join(pre, toks):
 
 
 CORPUS_WL = [
+    # seed C18-r2-2: concat / append / assign / resize / print_to on Strings that live inside containers
+    'wl|na:0,2,5,3 nl:1,2,4,7 nt:2,1,2,6,4 nr:3,0,2,5,9 el:0,0,2,5,1 el:0,1,3,6,1 el:1,2,2,7,1 el:1,0,0,8,1 el:2,1,2,9,1 el:2,3,4,3,1 '
+    'el:3,2,3,4,1 el:3,0,5,2,1 el:0,3,6,11,1 el:1,1,7,12,1 el:0,2,8,13,1 it:0 it:1 it:2 it:3 gc D',
+    'wl|nn:0,0,0,3,5 nn:1,1,1,3,2 nn:2,2,2,3,7 nn:3,3,3,3,1 nn:4,0,1,4,3 el:0,0,0,4,1 el:0,1,2,5,0 el:0,2,4,6,1 el:0,0,8,7,2 el:1,0,0,4,1 el:1,1,5,4,1 '
+    'el:4,0,2,9,0 el:4,1,5,9,1 el:2,0,0,4,9 el:2,1,2,4,9 el:3,0,0,5,1 el:3,1,3,5,0 el:3,2,4,6,1 so:0,1 cp:0,5 cm:0,5 pu:1,3 rm:0,4,1 it:0 it:1 it:2 it:3 it:4 gc D',
+    'wl|sk:0,5,9 sk:1,17,2 sk:2,40,-3 sk:3,7,123 sk:4,1,5 sk:4,4,4 sk:5,0,0 sk:6,3,3 sk:7,9,1 D',
     'wl|na:0,0,5,3 it:0 pu:0,7 pa:0,5,2 ge:0,3 so:0,1 it:0 nl:1,2,4,1 it:1 ib:1 rv:1 nt:2,1,0,6,2 it:2 ge:2,3 rm:2,3 D '
     'tc:0,2,5,1 tn:1,2,3 rg:1,4,2 fm:0,12,-7 fm:2,5,9 fm:4,3,3 sn:5,17,33 ca:1,2,3 gc D nr:3,0,3,5,1 it:3 ib:3 nu:4,5,2 '
     'it:4 ib:4 sl:0,1,1 zp:0,1 en:1 fi:0,1 ma:0 ty:0 ty:2 ha:0 ha:2 cp:0,5 cm:0,5 cc:0,5 D dl:0 gc D',
@@ -426,7 +549,7 @@ def run(ctx):
     extra = [c for c in (EXTRA_QUICK if quick else EXTRA_THOROUGH) if len(c) < 5 or _sh.which(c[4])]
     cfgs = ALL + extra
     ctx.cov['rule'] = (
-        'workload stream: seeded register-machine programs (3-7 constructors, then %s operations drawn from 69 kinds: '
+        'workload stream: seeded register-machine programs (3-7 constructors, then %s operations drawn from 80 kinds: '
         'Array/List/Table/Tree/Tuple/String/Int/Float/user-type construction, push/push_at/pop/pop_at/get/set/mem/rem/'
         'sort/sort_by/resize/concat/append/assign/copy/swap/cmp/hash, forward and backward iteration, slice/reverse/zip/'
         'enumerate/filter/map/range views, print_to formatting of every conversion class, scan_from round trip, Function '
@@ -498,7 +621,7 @@ def run(ctx):
         return outs
 
     import collections
-    hist, effective = collections.Counter(), collections.Counter()
+    hist, effective, covered = collections.Counter(), collections.Counter(), collections.Counter()
 
     def mk(tags, suffix):
         def run_wl(cases):
@@ -506,10 +629,16 @@ def run(ctx):
             for line in outs[tags[0]]:
                 for o in line.split(' | '):
                     if '=' in o:
-                        k, v = o.split('=', 1)
+                        k, ty, v = op_value(o)
                         hist[k] += 1
-                        if v not in ('-', '?', 'absent') and '!EXC' not in v:
+                        if v not in ('-', '?', 'absent') and not v.startswith('-:') and '!EXC' not in v:
                             effective[k] += 1
+                            if ty:
+                                covered[k + '/' + ty] += 1
+                            else:
+                                covered[k] += 1
+                            if k in ('el', 'sk'):
+                                covered[k + ':' + v.split(':', 1)[0]] += 1
             return [SEP.join('%s=%s' % (t, outs[t][i]) for t in tags) for i in range(len(cases))]
 
         def run_seq(cases):
@@ -626,6 +755,12 @@ def run(ctx):
         for i in range(0, nh, 1000):
             dh.feed(hcases[i:i + 1000])
         ctx.cov['heap_programs'] = dh.ncases
+    gcov, gmissing, gunex = guarded_block_coverage(covered)
+    ctx.cov['guarded_block_coverage'] = gcov
+    if gmissing:
+        ctx.notes.append('guarded functions without declared workload coverage (new #if CELLO_*_CHECK block?): ' + ' '.join(gmissing))
+    if gunex:
+        ctx.notes.append('guarded function x allocation class not exercised in this run: ' + ' '.join(gunex))
     ctx.cov['operation_histogram'] = {k: '%d executed, %d with an effect' % (hist[k], effective[k]) for k in sorted(hist)}
     ctx.cov['configurations'] = all_tags
     ctx.cov['configurations_beyond_the_matrix'] = [cfg_tag(c) for c in extra]
